@@ -2,6 +2,10 @@ use vh::common::{Out, read_cases};
 
 fn main() {
 	let args: Vec<String> = std::env::args().collect();
+	// diagnosis only: VH_TRACE=<filter> prints the library's own tracing output to stderr
+	if let Ok(f) = std::env::var("VH_TRACE") {
+		let _ = tracing_subscriber::fmt().with_env_filter(f).with_writer(std::io::stderr).try_init();
+	}
 	if args.len() < 2 {
 		eprintln!("usage: vh replay <module> <cases.ndjson> <out.ndjson> | vh record <scenario-set> <in> <out>");
 		std::process::exit(2);
